@@ -195,9 +195,20 @@ extern "C" int __wrap_gettimeofday(struct timeval* tv, void* tz)
   return 0;
 }
 
+// a write loop that never ends (e.g. AppendFile::append no longer advancing) must not fill the disk:
+// no operation of any case needs more than a few dozen fwrite calls between two flushes
+static std::atomic<long> g_fwCalls(0);
+static void runaway()
+{
+  static const char msg[] = "RUNAWAY: more than 5000 fwrite_unlocked calls without a flush / within one operation\n";
+  if (write(2, msg, sizeof msg - 1) < 0) {}
+  _exit(4);
+}
+
 extern "C" size_t __wrap_fwrite_unlocked(const void* p, size_t sz, size_t n, FILE* fp)
 {
   if (fp == stdout || fp == stderr) return __real_fwrite_unlocked(p, sz, n, fp);
+  if (g_fwCalls.fetch_add(1) > 5000) runaway();
   if (g_log)
   {
     if (isBackend()) gate("write", static_cast<long>(sz * n));
@@ -227,6 +238,7 @@ extern "C" int __wrap_ferror(FILE* fp)
 extern "C" int __wrap_fflush(FILE* fp)
 {
   if (fp == NULL || fp == stdout || fp == stderr) return __real_fflush(fp);
+  g_fwCalls.store(0);
   if (g_log) { if (isBackend()) gate("flush", 0); }
   else ++g_nflush;
   return __real_fflush(fp);
@@ -406,6 +418,7 @@ static void runSeq(const std::vector<string>& hdr)
     g_timeCalls = 0;
     g_errSeen = 0;
     g_ferr = 0;
+    g_fwCalls.store(0);
     if (w[0] == "A" && w.size() >= 5)
     {
       string d = vh::bytesOfSpec(w[1]);
@@ -555,6 +568,7 @@ static void runAsync(const std::vector<string>& hdr, bool freeMode)
   long now = atol(hdrGet(hdr, "now", "1000").c_str());
   g_virtual.store(true);
   g_vnow.store(now);
+  g_fwCalls.store(0);
   g_timeScript.clear();
   g_announce.clear();
   g_parkCount = 0;
